@@ -368,4 +368,34 @@ theorem late_syn_inert (env : Env) (now : Time) (c : Conn) (p : Packet) (hp : p.
     · rw [hl]; rfl
     · rfl
 
+/-- the same for a CONNECT packet when no CONNECT is waiting for its acknowledgement -/
+theorem late_connect_inert (env : Env) (now : Time) (c : Conn) (p : Packet) (hp : p.type = TYPE_CONNECT)
+    (hno : ∀ e ∈ c.ackEvents, e.1.1 ≠ TYPE_CONNECT) : (c.handle env now p).c = c := by
+  have hl : ackLookup (ackKeyOf p) c.ackEvents = none := ackLookup_none_of_no_type TYPE_CONNECT _ hp _ hno
+  unfold Conn.handle
+  split
+  · rfl
+  · split
+    · rfl
+    · simp only [hp, show (TYPE_CONNECT = TYPE_SYN) = False by decide, if_false, if_true]
+      have hpc : (c.processConnect env p).c = c := by
+        unfold Conn.processConnect
+        split
+        · rfl
+        · split
+          · rfl
+          · split
+            · rfl
+            · split
+              · rfl
+              · rw [hl]; rfl
+      unfold R.bind
+      cases he : (c.processConnect env p).err with
+      | some e => simp only []; exact hpc
+      | none =>
+        simp only [hpc]
+        split
+        · rw [hl]; rfl
+        · rfl
+
 end Nx.L1
